@@ -155,7 +155,7 @@ impl Property for NatProp {
             let rip = CODE_BASE + 0x200;
             let mut e = Encoder::new(64);
             e.encode(&ins, rip).ok()?;
-            Some(NCase { code: crate::util::hex(&e.take_buffer()), rip, gpr, rflags, xmm: [[0; 2]; 16], fs: 0, gs: 0, mem_seed: 7, patches: vec![], note: note.into(), layout: 0 })
+            Some(NCase { code: crate::util::hex(&e.take_buffer()), rip, gpr, rflags, xmm: [[0; 2]; 16], fs: 0, gs: 0, mem_seed: 7, patches: vec![], note: note.into(), layout: 0, steps: 0 })
         };
         match self.which {
             Which::C02 => {
@@ -231,7 +231,49 @@ impl Property for NatProp {
             patches: vec![],
             note: "unencodable".into(),
             layout: 0,
+            steps: 0,
         });
+        if self.which == Which::C04 {
+            let mut t4 = Tape::new(&tape[0][100..]);
+            if t4.below(4) == 0 {
+                // a short program on the slot grid: stack instructions mixed with RSP-relative accesses
+                let n = 3 + t4.below(10) as usize;
+                let o = crate::prog::ProgOpts::stacky();
+                let mut rows = Tape::new(&tape[0][..100]);
+                let prog: Vec<crate::prog::PI> = (0..n).map(|i| crate::prog::gen_slot(&mut rows, i, n, &o)).collect();
+                let base = CODE_BASE + 0x100;
+                let img = crate::prog::assemble(&prog, base);
+                let mut gpr = [0u64; 16];
+                for g in gpr.iter_mut() {
+                    *g = rows.val64();
+                }
+                // RSP in the middle of the stack arena; the cells around it hold slot addresses so that
+                // unmatched returns land in the program
+                let rsp = STK_BASE + 0x800 + 8 * t4.below(16);
+                gpr[4] = rsp;
+                let mut patches = vec![];
+                for k in 0..12u64 {
+                    let slot = crate::prog::slot_addr(base, t4.below(n as u64) as usize);
+                    patches.push((rsp - 16 + 8 * k, crate::util::hex(&slot.to_le_bytes())));
+                }
+                return NCase { code: crate::util::hex(&img), rip: base, gpr, rflags: rows.raw() & 0x8d5, xmm: [[0; 2]; 16], fs: 0, gs: 0, mem_seed: rows.raw(), patches, note: format!("program {:?}", prog), layout: 0, steps: 24 };
+            }
+            // single instruction with an RSP-based memory operand: the slot bias moves the explicit operand
+            // by one operand size on the biased CPU run, so both candidate cells get the same contents
+            let (ins, valid) = self.eng().decode(&c);
+            if valid && (0..ins.op_count()).any(|i| ins.op_kind(i) == OpKind::Memory) && ins.memory_base().full_register() == Register::RSP && ins.memory_index() == Register::None {
+                let size = ins.stack_pointer_increment().unsigned_abs() as u64;
+                let acc = self.eng().accesses(&ins, &c);
+                if let Some((a, sz, _, true)) = acc.iter().find(|x| x.3).copied() {
+                    if size > 0 && sz == size {
+                        let v = crate::util::mix2(c.mem_seed, a) & 0x0000_0000_0fff_fff8 | CODE_BASE;
+                        let bytes = v.to_le_bytes()[..size as usize].to_vec();
+                        c.patches.push((a, crate::util::hex(&bytes)));
+                        c.patches.push((a.wrapping_add(size), crate::util::hex(&bytes)));
+                    }
+                }
+            }
+        }
         if self.which == Which::C03 {
             // keep RSP well inside the stack and make the return address independent of the
             // slot convention (which is C04's subject): same value in both candidate slots
@@ -454,7 +496,7 @@ impl Property for NatProp {
             Which::C01 => "cases: form-directed random single instructions (every floor form, reg/mem operands, interesting∪uniform register values, all flag inputs) run on the emulator and single-stepped on the host CPU; non-trivial = both complete and a register/XMM/memory byte changes or the form is CMP/TEST; distinct by hash(bytes, registers, flags, memory seed, patches)".into(),
             Which::C02 => "cases: as C01 over all non-OS floor forms; compared flags = CF PF ZF SF OF DF (+AF where architecturally unaffected) minus the flags the SDM leaves undefined for this instruction instance (count-dependent for shifts); non-trivial = a compared flag changes (modifying forms) or an incoming flag is set (preserving forms); distinct by case hash".into(),
             Which::C03 => "cases: every floor Jcc/JMP/CALL/RET/JRCXZ/JECXZ form with random flags, RCX, displacements and indirect targets; RIP after one step vs the CPU's; non-trivial = every compared case; distinct by (form, flags, displacement, RCX)".into(),
-            Which::C04 => "cases: every floor PUSH/POP/CALL/RET form × RSP placement × stack contents; emulator vs CPU directly, and vs the CPU under the KF-C04-1 expected-deviation model (RSP biased by the operand size); non-trivial = RSP or stack bytes change; distinct by case hash".into(),
+            Which::C04 => "cases: every floor PUSH/POP/CALL/RET form × RSP placement × stack contents (incl. RSP itself as operand and RSP-based memory operands), and for 1/4 of the cases slot-grid programs of 3–12 instructions mixing PUSH/POP/CALL/RET (64- and 16-bit, immediates, register-indirect calls) with mov [rsp+d],r / mov r,[rsp+d] / lea / add rsp,imm8, run in lock-step with the CPU for ≤24 steps with the KF-C04-1 bias applied around every stack instruction and all registers, RIP and every arena byte compared after every step; emulator vs CPU directly, and vs the CPU under the KF-C04-1 expected-deviation model (RSP biased by the operand size); non-trivial = RSP or stack bytes change; distinct by case hash".into(),
             Which::C05 => "cases: LEA/MOV/MOVZX/MOVSXD/MOVUPS/MOVD with a memory operand over generated addressing shapes (base, index×scale, disp8/32, RIP-relative, absolute, moffs, GS base natively, FS via the GS twin, 0x67 override); non-trivial = ≥2 address components; distinct by case hash".into(),
             Which::C06 => "cases: all non-OS floor forms with operands steered to area edges, read-only, unmapped and misaligned memory and division boundaries; verdict = (CPU faults ⇔ step is Err) and no panic; non-trivial = CPU faults, or an access within 16 bytes of an area edge, or a division; distinct by case hash".into(),
         }
@@ -465,7 +507,7 @@ impl Property for NatProp {
             Which::C01 => vec!["operand:mem".into(), "operand:reg".into()],
             Which::C02 => vec!["flags:preserving-form".into(), "flags:modifying-form".into(), "shift:masked-count-0".into(), "shift:count-1".into(), "shift:count>=width".into()],
             Which::C03 => vec!["branch:taken".into(), "branch:not-taken".into()],
-            Which::C04 => vec![],
+            Which::C04 => vec!["program".into(), "program:stack+rsp-relative".into(), "deviation:matches-bias-model".into()],
             Which::C05 => vec!["seg:gs".into(), "seg:fs-twin".into(), "addr32".into(), "base:rip".into(), "sib:index".into(), "moffs".into()],
             Which::C06 => vec!["verdict:both-complete".into(), "verdict:both-refuse".into()],
         }
@@ -696,6 +738,9 @@ impl NatProp {
 
     /// C04: direct comparison, then the KF-C04-1 expected-deviation model.
     fn exec_c04(&mut self, c: &NCase) -> CaseOut {
+        if c.steps > 0 {
+            return self.exec_c04_program(c);
+        }
         let fp = case_fp(c);
         let d = self.eng().run(c, true);
         if !d.valid {
@@ -734,9 +779,13 @@ impl NatProp {
             out.verdict = Verdict::Fail { sig, msg: format!("stack instruction crashed: {} at {}\n  instruction: {} [{}] rsp={:#x}", p.message, p.location, d.ins, c.code, c.gpr[4]) };
             return out;
         }
-        // expected-deviation model: the emulator behaves like the CPU started with RSP + size
-        if operand_uses_rsp(&d.ins) {
-            return CaseOut::discard("rsp-operand-interacts-with-slot-bias");
+        // expected-deviation model: the emulator behaves like the CPU started with RSP + size.
+        // RSP-typed operands take part in the bias: `push rsp` stores an RSP value, `call rsp` jumps to
+        // one (both one operand size lower than the biased CPU's); `pop rsp` loads a raw value.
+        let rsp_reg_operand = (0..d.ins.op_count()).any(|i| d.ins.op_kind(i) == OpKind::Register && d.ins.op_register(i).full_register() == Register::RSP);
+        let rsp_mem_operand = (0..d.ins.op_count()).any(|i| d.ins.op_kind(i) == OpKind::Memory) && (d.ins.memory_base().full_register() == Register::RSP || d.ins.memory_index().full_register() == Register::RSP);
+        if rsp_mem_operand && !(d.ins.memory_index() == Register::None && c.patches.len() >= 2) {
+            return CaseOut::discard("rsp-based-memory-operand-not-normalised");
         }
         let mut cb = c.clone();
         cb.gpr[4] = c.gpr[4].wrapping_add(size);
@@ -754,12 +803,35 @@ impl NatProp {
         let matches_model = match (&d.emu, nb.completed()) {
             (Emu::Ok(_), true) => {
                 let er = d.emu_regs.unwrap();
-                let mut ok = er.rip == nb.regs.rip;
+                let m = d.ins.mnemonic();
+                let want_rip = if rsp_reg_operand && matches!(m, Mnemonic::Call | Mnemonic::Jmp) { nb.regs.rip.wrapping_sub(size) } else { nb.regs.rip };
+                let mut ok = er.rip == want_rip;
                 for i in 0..16 {
-                    let want = if i == 4 { nb.regs.gpr[4].wrapping_sub(size) } else { nb.regs.gpr[i] };
-                    // a popped/steered register that *is* RSP-derived is excluded above
+                    let want = if i == 4 {
+                        if rsp_reg_operand && m == Mnemonic::Pop {
+                            if size == 2 {
+                                // pop sp: the incremented RSP with its low word replaced by the popped value
+                                (c.gpr[4].wrapping_add(2) & !0xffff) | (nb.regs.gpr[4] & 0xffff)
+                            } else {
+                                nb.regs.gpr[4]
+                            }
+                        } else {
+                            nb.regs.gpr[4].wrapping_sub(size)
+                        }
+                    } else {
+                        nb.regs.gpr[i]
+                    };
                     if er.gpr[i] != want {
                         ok = false;
+                    }
+                }
+                if rsp_reg_operand && m == Mnemonic::Push {
+                    // the pushed RSP value is one operand size lower than the biased CPU's
+                    if let Some(cell) = self.eng().native.peek(c.gpr[4], size as usize) {
+                        let mut b = [0u8; 8];
+                        b[..size as usize].copy_from_slice(&cell);
+                        let v = u64::from_le_bytes(b).wrapping_sub(size);
+                        self.eng().native.poke(c.gpr[4], &v.to_le_bytes()[..size as usize]);
                     }
                 }
                 // memory: emulator areas vs biased native arenas
@@ -772,6 +844,11 @@ impl NatProp {
         if matches_model {
             out.verdict = Verdict::Known("KF-C04-1".into());
             return out.class("deviation:matches-bias-model");
+        }
+        if rsp_mem_operand && matches!((&d.emu, nb.completed()), (Emu::Ok(_), false) | (Emu::Err(_), true)) {
+            // the bias also moves the *explicit* RSP-based operand of the CPU run by one operand size; at an
+            // area edge that alone flips the CPU's verdict, which says nothing about the emulator
+            return CaseOut::discard("rsp-based-memory-operand-at-an-area-edge-under-bias");
         }
         let what = match (&d.emu, n.completed(), nb.completed()) {
             (Emu::Ok(_), _, true) => "result differs from the CPU both directly and under the slot-bias model",
@@ -800,6 +877,122 @@ impl NatProp {
                 nb.regs.gpr[4],
             ),
         };
+        out
+    }
+
+    /// C04 programs: emulator and CPU in lock-step, the KF-C04-1 bias applied around every stack instruction.
+    fn exec_c04_program(&mut self, c: &NCase) -> CaseOut {
+        let fp = case_fp(c);
+        let images = crate::mach::arena_images(c);
+        let mut ax = match crate::util::catch(|| crate::mach::build_ax(c, &images)) {
+            Ok(Ok(a)) => a,
+            _ => return CaseOut::fail("HARNESS-FAULT|C04-prog-build".into(), "could not build the machine".into()),
+        };
+        crate::mach::load_native(&self.eng().native, &images);
+        let code_img = images.iter().find(|(k, _)| *k == ArenaKind::Code).unwrap().1.clone();
+        let mut nregs = c.regs();
+        let mut out = CaseOut::pass(true, fp).class("program");
+        let (mut stack_steps, mut rsp_rel) = (0u32, 0u32);
+        for stepno in 0..c.steps {
+            let rip = nregs.rip;
+            if rip < CODE_BASE || rip >= CODE_BASE + CODE_LEN as u64 - 16 {
+                break;
+            }
+            let off = (rip - CODE_BASE) as usize;
+            let ins = Decoder::with_ip(64, &code_img[off..off + 15], rip, DecoderOptions::NONE).decode();
+            if ins.is_invalid() || !self.eng().allow.contains(&ins.code()) || insn::class_of(ins.mnemonic()) == Class::Os {
+                break;
+            }
+            let is_stack = matches!(ins.mnemonic(), Mnemonic::Push | Mnemonic::Pop | Mnemonic::Call | Mnemonic::Ret);
+            let size = if is_stack { ins.stack_pointer_increment().unsigned_abs() as u64 } else { 0 };
+            if is_stack && operand_uses_rsp(&ins) {
+                break; // RSP-typed operands are covered by the single-instruction cases
+            }
+            if !is_stack && (0..ins.op_count()).any(|i| ins.op_kind(i) == OpKind::Memory) && ins.memory_base() == Register::RSP {
+                rsp_rel += 1;
+            }
+            // native step (biased around stack instructions)
+            let mut pre = nregs;
+            pre.gpr[4] = pre.gpr[4].wrapping_add(size);
+            let probe = NCase { gpr: pre.gpr, rip, code: crate::util::hex(&code_img[off..off + ins.len()]), ..c.clone() };
+            let acc = self.eng().accesses(&ins, &probe);
+            if acc.iter().any(|(a, s, _, _)| self.eng().native.touches_host(*a, *s)) {
+                break;
+            }
+            let n = self.eng().native.step(&pre);
+            let r = crate::util::catch(|| crate::util::block_on(ax.step()).map_err(|e| e.to_string()));
+            let code = format!("{:?}", ins.code());
+            let fail = |out: &mut CaseOut, comp: &str, msg: String| {
+                out.verdict = Verdict::Fail { sig: format!("C04|prog|{}|{}", code, comp), msg: format!("step #{} of the program, {} at {:#x}: {}\n  {}", stepno, ins, rip, msg, c.note) };
+            };
+            let emu_ok = match &r {
+                Err(p) => {
+                    fail(&mut out, &p.signature(), format!("the step crashed: {} at {}", p.message, p.location));
+                    return out;
+                }
+                Ok(Ok(_)) => true,
+                Ok(Err(_)) => false,
+            };
+            if n.completed() != emu_ok {
+                let top = n.regs.rip >> 47;
+                if !n.completed() && matches!(ins.mnemonic(), Mnemonic::Ret | Mnemonic::Call | Mnemonic::Jmp) && emu_ok && { let t = ax.reg_read_64(ax_x86::state::registers::SupportedRegister::RIP).unwrap() >> 47; t != 0 && t != 0x1ffff } {
+                    let _ = top;
+                    break; // non-canonical target: vendor-specific fault point
+                }
+                fail(&mut out, if emu_ok { "ok-vs-fault" } else { "err-vs-ok" }, format!("the CPU {} but the step answered {}", if n.completed() { "completes" } else { "faults" }, if emu_ok { "Ok" } else { "Err" }));
+                return out;
+            }
+            if !emu_ok {
+                break; // both refuse
+            }
+            if matches!(r, Ok(Ok(false))) {
+                break; // the emulator's finish conventions are C11's subject
+            }
+            let mut post = n.regs;
+            post.gpr[4] = post.gpr[4].wrapping_sub(size);
+            let er = crate::mach::ax_regs(&ax);
+            for i in 0..16 {
+                if er.gpr[i] != post.gpr[i] {
+                    fail(&mut out, if i == 4 { "rsp" } else { "gpr" }, format!("{}: emulator {:#x}, cpu {:#x}", crate::mach::GPR_NAMES[i], er.gpr[i], post.gpr[i]));
+                    return out;
+                }
+            }
+            if er.rip != post.rip {
+                fail(&mut out, "rip", format!("rip: emulator {:#x}, cpu {:#x}", er.rip, post.rip));
+                return out;
+            }
+            for d in ARENAS.iter() {
+                let nm = self.eng.as_ref().unwrap().native.read_arena(d.kind);
+                match ax.verif_area_data(d.base) {
+                    Some(em) if em == nm => {}
+                    Some(em) => {
+                        let o = em.iter().zip(nm.iter()).position(|(a, b)| a != b).unwrap_or(0);
+                        fail(&mut out, "mem", format!("memory at {:#x}: emulator {:02x?}, cpu {:02x?}", d.base + o as u64, &em[o..(o + 8).min(em.len())], &nm[o..(o + 8).min(nm.len())]));
+                        return out;
+                    }
+                    None => {
+                        fail(&mut out, "mem", "area vanished".into());
+                        return out;
+                    }
+                }
+            }
+            // flags are C02's subject; keep both sides in sync on the compared ones only
+            let mask = compared_flags(&ins, &pre);
+            post.rflags = (post.rflags & mask) | (er.rflags & !mask & GUEST_FLAG_MASK);
+            ax.verif_set_rflags(post.rflags & GUEST_FLAG_MASK);
+            nregs = post;
+            if is_stack {
+                stack_steps += 1;
+            }
+        }
+        out.nontrivial = stack_steps >= 1 && rsp_rel >= 1;
+        if out.nontrivial {
+            out = out.class("program:stack+rsp-relative");
+        }
+        if stack_steps > 0 {
+            // every stack instruction matched the CPU only under the slot bias
+            out.verdict = Verdict::Known("KF-C04-1".into());
+        }
         out
     }
 
